@@ -15,6 +15,9 @@ import (
 
 type fsm struct {
 	peer *peer
+	// dir is the direction (in/out) of this fsm, i.e. its index in the peer's
+	// per-fsm arrays. It is set once before the fsm is started.
+	dir int
 
 	// the bgp ID received in the latest open message
 	remoteID uint32
@@ -45,9 +48,10 @@ type fsm struct {
 	idleHoldTimer     *time.Timer
 }
 
-func newFSM(peer *peer, conn net.Conn) *fsm {
+func newFSM(peer *peer, dir int, conn net.Conn) *fsm {
 	f := &fsm{
 		peer:    peer,
+		dir:     dir,
 		conn:    conn,
 		closeCh: make(chan struct{}),
 		doneCh:  make(chan struct{}),
